@@ -1016,6 +1016,26 @@ func featC11(m *gen.Mixed, ts *gen.TieSetup, p *modelParams) {
 						}
 					}
 				}
+			case 9: // a staker id that occurs more than once in the block, the record that counts not being the first:
+				// a junk record (broken signature) naming a holder in front of that holder's own record, and a holder
+				// with two valid records paying two different addresses
+				if h >= e.V20 && len(s.SPR) >= 25 {
+					var holders []forge.Key
+					for _, a := range gen.TopPEG(v.Balances, 100) {
+						for _, k := range m.Actors {
+							if k.FA() == a && !k.IsEth() {
+								holders = append(holders, k)
+							}
+						}
+					}
+					if len(holders) >= 4 {
+						k0, k1 := holders[0], holders[1]
+						junk := forge.MakeSPR(forge.SPRParams{Version: e.SPRVersion(h), Height: h, Staker: k0.FA(), Signer: k0, Payout: k0.FA().String(), Assets: forge.PriceVector(5, w.Prices), BadSig: true})
+						other := forge.NewKey(fmt.Sprintf("c11-second-payout-%d-%d", p.Seed, h))
+						second := forge.MakeSPR(forge.SPRParams{Version: e.SPRVersion(h), Height: h, Staker: k1.FA(), Signer: k1, Payout: other.FA().String(), Assets: forge.PriceVector(5, w.Prices)})
+						s.SPR = append([]forge.Entry{junk, second}, s.SPR...)
+					}
+				}
 			case 0: // exactly the winner count
 				if len(s.OPR) > forge.WinnerCount(ver) {
 					s.OPR = s.OPR[:forge.WinnerCount(ver)]
